@@ -239,6 +239,15 @@ def r5(ctx, retsets):
         good = sum_ok and now_ok and bool(clk) and clamp
         detail = "wait = %s, clamped at 0: %s, now read from the clock: %s" % (vf.show(d), clamp, bool(clk))
     ctx.check(good, "C17.R5", "wait-expression", c.loc(), detail, key="C17.R5:wait")
+    # the wait is computed from a fresh clock reading for every receive (no retry loop that reuses a stale wait)
+    inloop = [body for h, body in fn.loops().items() if c.block.id in body]
+    fresh = True
+    if inloop:
+        body = min(inloop, key=len)
+        fresh = any(k.block.id in body and fn.dom(k, c) for k in fn.calls("lrtr_get_monotonic_time"))
+    ctx.check(len(rc) == 1 and fresh, "C17.R5", "wait-recomputed-per-receive", c.loc(),
+              "one receive per call, or the clock is read again inside the loop that repeats it" if (len(rc) == 1 and fresh) else
+              "the receive is repeated in a loop that does not recompute the remaining wait (%d receive calls)" % len(rc), key="C17.R5:wait-fresh")
     # outcome table
     notify = pdb.enum_value("SERIAL_NOTIFY")
     wb = pdb.enum_value("TR_WOULDBLOCK")
